@@ -1,2 +1,230 @@
-(* placeholder, replaced below *)
-From DS Require Import Base.Prelude Model.AaxModel.
+(* C15 — Antenna axes stay in range, never outrun the commanded rate, stop on demand.
+   Statements only; every proof is `exact` of a lemma in Proofs/AaxProofs.v (Proofs/AaxStep.v,
+   Proofs/AaxArith.v).
+
+   Setting.  [c : cfg] is an axis configuration (operating range lo..hi, maximum rate, stow
+   positions, microdegrees), [wf_cfg c]: lo <= hi, 0 <= vmax, stow positions inside the range.
+   [reach c p0 st]: st is reachable from MasterAxisStatus.__init__ at start position p0 by ANY
+   finite history of events, in any order and interleaving:
+     ECmd cnt cm   an accepted mode command (parameters within the validated limits: [accepted]),
+     ETick id k    one loop iteration of command thread id with elapsed time k/1024 s, k >= 0,
+     EUpdate       update_status,   EFeed   a write of next_pos/ptState/p_Bahn by the pointing
+     subsystem (any values),   EOffAbs/EOffRel   position-offset parameter commands.
+   Assumptions (not proved, see notes/C15.md): one loop iteration and the part of a handler before
+   its loop are atomic; int(round(abs(rate)*dt)) = disp rate k on the grid dt = k/1024 s. *)
+From DS Require Import Base.Prelude Model.AaxModel Proofs.AaxArith Proofs.AaxStep Proofs.AaxProofs.
+From DS Require Import Proofs.AaxTrack.
+
+(* the position stays inside the operating range *)
+Theorem C15_range : forall c p0, wf_cfg c -> in_range c p0 -> forall st, reach c p0 st ->
+  lo c <= p (axs st) <= hi c.
+Proof. exact range_all. Qed.
+Print Assumptions C15_range.
+
+(* the position changes only in a loop iteration of a live command thread, and only while the axis
+   is active (axis_state = 3) and not stowed *)
+Theorem C15_moves_only_if_active_unstowed : forall c p0, wf_cfg c -> in_range c p0 ->
+  forall st e, reach c p0 st -> ev_ok c st e ->
+  p (axs (step c st e)) <> p (axs st) ->
+  ast (axs st) = 3 /\ stowed (axs st) = false /\
+  exists id k m, e = ETick id k /\ In m (movers st) /\ mover_id m = id.
+Proof. exact moves_only_if_active_unstowed. Qed.
+Print Assumptions C15_moves_only_if_active_unstowed.
+
+(* per iteration the position moves by at most the displacement of the commanded rate
+   (positioning threads; tracking thread while positioning on the first point) ... *)
+Theorem C15_rate_commanded : forall c p0, wf_cfg c -> in_range c p0 ->
+  forall st id cnt kd tgt rate k, reach c p0 st -> 0 <= k ->
+  In (MMove id cnt kd tgt rate) (movers st) ->
+  Z.abs (p (axs (step c st (ETick id k))) - p (axs st)) <= disp rate k.
+Proof. exact rate_commanded. Qed.
+Print Assumptions C15_rate_commanded.
+
+Theorem C15_rate_track_positioning : forall c p0, wf_cfg c -> in_range c p0 ->
+  forall st id cnt rate fin k, reach c p0 st -> 0 <= k ->
+  In (MTrack id cnt rate fin) (movers st) -> ptst (axs st) = 2 ->
+  Z.abs (p (axs (step c st (ETick id k))) - p (axs st)) <= disp rate k.
+Proof. exact rate_track_positioning. Qed.
+Print Assumptions C15_rate_track_positioning.
+
+(* ... and in every case (tracking included) by at most that of the axis' maximum rate *)
+Theorem C15_rate_axis_max : forall c p0, wf_cfg c -> in_range c p0 ->
+  forall st id k, reach c p0 st -> 0 <= k ->
+  Z.abs (p (axs (step c st (ETick id k))) - p (axs st)) <= disp (vmax c) k.
+Proof. exact rate_axis_max. Qed.
+Print Assumptions C15_rate_axis_max.
+
+(* the displacement is rate x dt up to half a microdegree: 2*1024*d <= 2*|rate|*k + 1024 *)
+Theorem C15_rate_rounding : forall rate k, 0 <= k ->
+  0 <= disp rate k /\ 2 * 1024 * disp rate k <= 2 * (Z.abs rate * k) + 1024.
+Proof. exact disp_spec. Qed.
+Print Assumptions C15_rate_rounding.
+
+(* a positioning thread never overshoots or backs off from its target; while its command is the
+   current one and the axis is active and unstowed the remaining distance shrinks by exactly the
+   displacement *)
+Theorem C15_no_overshoot : forall c p0, wf_cfg c -> in_range c p0 ->
+  forall st id cnt kd tgt rate k, reach c p0 st -> 0 <= k ->
+  In (MMove id cnt kd tgt rate) (movers st) ->
+  Z.abs (tgt - p (axs (step c st (ETick id k)))) <= Z.abs (tgt - p (axs st)).
+Proof. exact no_overshoot. Qed.
+Print Assumptions C15_no_overshoot.
+
+Theorem C15_progress : forall c p0, wf_cfg c -> in_range c p0 ->
+  forall st id cnt kd tgt rate k, reach c p0 st -> 0 <= k ->
+  In (MMove id cnt kd tgt rate) (movers st) -> current st cnt ->
+  Z.abs (tgt - p (axs (step c st (ETick id k)))) = Z.max 0 (Z.abs (tgt - p (axs st)) - disp rate k).
+Proof. exact progress. Qed.
+Print Assumptions C15_progress.
+
+(* every positioning target (preset, relative preset, slew, drive to stow) of an accepted command
+   lies inside the operating range, and its rate within the axis maximum *)
+Theorem C15_targets_in_range : forall c p0, wf_cfg c -> in_range c p0 ->
+  forall st id cnt kd tgt rate, reach c p0 st -> In (MMove id cnt kd tgt rate) (movers st) ->
+  lo c <= tgt <= hi c /\ Z.abs rate <= vmax c.
+Proof. exact targets_in_range. Qed.
+Print Assumptions C15_targets_in_range.
+
+(* exact arrival: when an iteration's displacement covers the remaining distance the position is
+   exactly the target, the velocity 0, the executed-command fields report this command (counter,
+   mode, answer 1 = executed), drive-to-stow leaves the axis stowed, and the thread has ended *)
+Theorem C15_arrival_exact : forall c p0, wf_cfg c -> in_range c p0 ->
+  forall st id cnt kd tgt rate k, reach c p0 st -> 0 <= k ->
+  In (MMove id cnt kd tgt rate) (movers st) -> current st cnt ->
+  Z.abs (tgt - p (axs st)) <= disp rate k ->
+  let st' := step c st (ETick id k) in
+  p (axs st') = tgt /\ v (axs st') = 0 /\
+  ecnt (axs st') = cnt /\ ecmd (axs st') = kind_code kd /\ eans (axs st') = 1 /\
+  (kd = KStow -> stowed (axs st') = true) /\
+  ~ In id (map mover_id (movers st')).
+Proof. exact arrival_exact. Qed.
+Print Assumptions C15_arrival_exact.
+
+(* a positioning command that is not superseded reaches its target: over any run of iterations of
+   its thread whose displacements add up to the distance *)
+Theorem C15_arrival_eventually : forall c p0, wf_cfg c -> in_range c p0 ->
+  forall ks st id cnt kd tgt rate, reach c p0 st -> Forall (fun k => 0 <= k) ks ->
+  In (MMove id cnt kd tgt rate) (movers st) -> current st cnt ->
+  Z.abs (tgt - p (axs st)) <= zsum_disp rate ks -> ks <> [] ->
+  let st' := run c st (ticks id ks) in
+  p (axs st') = tgt /\ v (axs st') = 0 /\
+  ecnt (axs st') = cnt /\ ecmd (axs st') = kind_code kd /\ eans (axs st') = 1 /\
+  ~ In id (map mover_id (movers st')).
+Proof. exact arrival_eventually. Qed.
+Print Assumptions C15_arrival_eventually.
+
+(* supersession within one iteration.  Full statement of the property ("a stop or a newer motion
+   command ends the previous motion within one update") holds for commands whose counter differs
+   from the running command's counter; with EQUAL counters it fails (C15_same_counter_refuted):
+     forall ..., supersedes c cm = true -> (no hypothesis on cnt') -> ... motion ends.       *)
+Theorem C15_superseded_within_one_tick_except_same_counter : forall c p0, wf_cfg c -> in_range c p0 ->
+  forall es st id cnt kd tgt rate cnt' cm k,
+  reach c p0 st -> In (MMove id cnt kd tgt rate) (movers st) ->
+  supersedes c cm = true -> cnt' <> cnt -> accepted c (axs st) cm ->
+  let st1 := step c st (ECmd cnt' cm) in
+  all_ok c st1 es -> Forall (quiet id cnt) es ->
+  let st2 := run c st1 es in
+  let st3 := step c st2 (ETick id k) in
+  p (axs st3) = p (axs st2) /\ v (axs st3) = 0 /\ ~ In id (map mover_id (movers st3)).
+Proof. exact stop_or_newer_command_ends_motion. Qed.
+Print Assumptions C15_superseded_within_one_tick_except_same_counter.
+
+(* the same for the tracking thread: a stop / preset / relative preset / slew (they leave the
+   trajectory state different from "tracking") whose counter differs from the thread's ends tracking
+   within one iteration of that thread; uses the invariant that at most one tracking thread exists *)
+Theorem C15_tracking_superseded_within_one_tick_except_same_counter :
+  forall c p0, wf_cfg c -> in_range c p0 ->
+  forall es st id cnt rate fin cnt' cm k,
+  reach c p0 st -> In (MTrack id cnt rate fin) (movers st) ->
+  ends_tracking c cm = true -> cnt <> Some cnt' -> accepted c (axs st) cm ->
+  let st1 := step c st (ECmd cnt' cm) in
+  all_ok c st1 es -> Forall (quiet_t id cnt) es ->
+  let st2 := run c st1 es in
+  let st3 := step c st2 (ETick id k) in
+  p (axs st3) = p (axs st2) /\ v (axs st3) = 0 /\ pta (axs st3) = false /\
+  ~ In id (map mover_id (movers st3)).
+Proof. exact stop_or_newer_command_ends_tracking. Qed.
+Print Assumptions C15_tracking_superseded_within_one_tick_except_same_counter.
+
+Theorem C15_superseded_move_one_tick : forall c p0, wf_cfg c -> in_range c p0 ->
+  forall st id cnt kd tgt rate k, reach c p0 st ->
+  In (MMove id cnt kd tgt rate) (movers st) -> cur (axs st) <> Some cnt ->
+  let st' := step c st (ETick id k) in
+  p (axs st') = p (axs st) /\ v (axs st') = 0 /\ ~ In id (map mover_id (movers st')).
+Proof. exact superseded_move_one_tick. Qed.
+Print Assumptions C15_superseded_move_one_tick.
+
+Theorem C15_superseded_track_one_tick : forall c p0, wf_cfg c -> in_range c p0 ->
+  forall st id cnt rate fin k, reach c p0 st ->
+  In (MTrack id cnt rate fin) (movers st) -> cnt <> cur (axs st) -> traj (axs st) <> 7 ->
+  let st' := step c st (ETick id k) in
+  p (axs st') = p (axs st) /\ v (axs st') = 0 /\ pta (axs st') = false /\
+  ~ In id (map mover_id (movers st')).
+Proof. exact superseded_track_one_tick. Qed.
+Print Assumptions C15_superseded_track_one_tick.
+
+Theorem C15_command_supersedes : forall c st cnt cm, supersedes c cm = true ->
+  cur (axs (step c st (ECmd cnt cm))) = Some cnt /\
+  (ends_tracking c cm = true -> traj (axs (step c st (ECmd cnt cm))) <> 7).
+Proof. exact command_supersedes. Qed.
+Print Assumptions C15_command_supersedes.
+
+(* limit and rate warning bits after update_status agree with position and velocity; in every
+   reachable state the final-limit and rate-limit warnings are off *)
+Theorem C15_limit_bits_agree : forall c p0, wf_cfg c -> in_range c p0 ->
+  forall st, reach c p0 st ->
+  let s' := axs (step c st EUpdate) in
+  pre_dn s' = (p (axs st) =? lo c) /\ fin_dn s' = false /\
+  pre_up s' = (p (axs st) =? hi c) /\ fin_up s' = false /\ rate_lim s' = false /\
+  p s' = p (axs st) /\ v s' = v (axs st).
+Proof. exact limit_bits_agree. Qed.
+Print Assumptions C15_limit_bits_agree.
+
+Theorem C15_limit_bits_as_coded : forall c s,
+  let s' := update_status c s in
+  pre_dn s' = (p s <=? lo c) /\ fin_dn s' = (p s <? lo c) /\
+  pre_up s' = (hi c <=? p s) /\ fin_up s' = (hi c <? p s) /\
+  rate_lim s' = (vmax c <? Z.abs (v s)).
+Proof. exact update_status_bits_general. Qed.
+Print Assumptions C15_limit_bits_as_coded.
+
+Theorem C15_velocity_bounded : forall c p0, wf_cfg c -> in_range c p0 -> forall st, reach c p0 st ->
+  Z.abs (v (axs st)) <= vmax c.
+Proof. exact velocity_bounded. Qed.
+Print Assumptions C15_velocity_bounded.
+
+(* non-vacuity: the shipped azimuth and elevation configurations are well formed; a concrete
+   history (activate, preset 180 -> 181 deg at 0.5 deg/s, seven iterations of 0.25 s) reaches a
+   state meeting every hypothesis of C15_arrival_exact *)
+Example C15_ex_configs : (wf_cfg az_cfg /\ in_range az_cfg 180000000) /\
+                         (wf_cfg el_cfg /\ in_range el_cfg 90000000).
+Proof. exact (conj az_wf el_wf). Qed.
+Example C15_ex_arrival_hypotheses :
+  let st := run az_cfg (init az_cfg 180000000) ex_hist in
+  reach az_cfg 180000000 st /\ In (MMove 1 2 KAbs 181000000 500000) (movers st) /\
+  current st 2 /\ Z.abs (181000000 - p (axs st)) <= disp 500000 256 /\ p (axs st) = 180875000.
+Proof. exact ex_arrival_hyps. Qed.
+
+(* known findings (witnesses by computation) *)
+Theorem C15_same_counter_refuted :
+  let st1 := run az_cfg (init az_cfg 180000000)
+                 [ECmd 1 CActive; ETick 0 0; ECmd 5 (CAbs 181000000 500000); ETick 1 0; ETick 1 256] in
+  let st2 := run az_cfg st1 [ECmd 5 CStop; ETick 2 0; ETick 1 256] in
+  all_ok az_cfg (init az_cfg 180000000)
+         [ECmd 1 CActive; ETick 0 0; ECmd 5 (CAbs 181000000 500000); ETick 1 0; ETick 1 256;
+          ECmd 5 CStop; ETick 2 0; ETick 1 256] /\
+  ecmd (axs st2) = 7 /\ eans (axs st2) = 1 /\
+  p (axs st2) = p (axs st1) + 125000 /\ v (axs st2) = 500000 /\ In 1 (map mover_id (movers st2)).
+Proof. exact same_counter_stop_refuted. Qed.
+Print Assumptions C15_same_counter_refuted.
+
+Theorem C15_track_rate_stale_refuted :
+  let es := [ECmd 1 CActive; ETick 0 0; ECmd 2 (CTrack 500000); ETick 1 0;
+             EFeed (Some 185000000) 2 185000000; ECmd 3 (CTrack 100000); ETick 2 0] in
+  let st1 := run az_cfg (init az_cfg 180000000) es in
+  let st2 := step az_cfg st1 (ETick 1 1024) in
+  all_ok az_cfg (init az_cfg 180000000) (es ++ [ETick 1 1024]) /\
+  ecnt (axs st1) = 3 /\ ecmd (axs st1) = 8 /\ eans (axs st1) = 1 /\
+  p (axs st2) - p (axs st1) = 500000 /\ disp 100000 1024 = 100000.
+Proof. exact track_rate_stale_refuted. Qed.
+Print Assumptions C15_track_rate_stale_refuted.
